@@ -33,6 +33,7 @@ var (
 	flagWriteBaseline = flag.Bool("write-baseline", false, "rewrite the baseline from this run (maintainer command)")
 	flagReplayDir = flag.String("replaydir", "/verif/replays", "where replay files are written")
 	flagNoReplay = flag.Bool("noreplay", false, "do not run replays")
+	flagReplay   = flag.String("replay", "", "re-run a stored replay scenario and exit")
 )
 
 type Loaded struct {
@@ -165,6 +166,9 @@ func newExec(ld *Loaded, db *SpecDB) *Exec {
 
 func main() {
 	flag.Parse()
+	if *flagReplay != "" {
+		os.Exit(replayMain(*flagReplay))
+	}
 	t0 := time.Now()
 	ld, err := loadRepo(*flagRepo)
 	if err != nil {
